@@ -301,4 +301,8 @@ class Parser(object):
         # type: (str) -> ProgramNode
         """ Parses the source text into a program structure """
 
+        # Each parse starts from a clean state: line 1, and no EEMS 2.0 syntax seen yet
+        self.lexer.lineno = 1
+        self.eems_v2 = False
+
         return self.parser.parse(source, lexer=self.lexer, tracking=True)
